@@ -119,4 +119,6 @@ pub fn run(ctx: &mut Ctx) {
         }
         jax::cleanup();
     }
+    // ---- sequences of ontologies built one after the other at the same address
+    super::common::ontology_sequences(ctx, "defaults", Mode::Defaults, &mut super::common::obs_oracle(Mode::Defaults));
 }
